@@ -32,9 +32,12 @@ class PROP(Prop):
                f"{GB}:ChannelFactory._local_close", f"{GB}:ChannelFactory._no_longer_opened",
                # end of stream is noticed wherever the initiator died, also in the middle of a frame: the read loops return exactly n bytes or raise EOFError, and terminate
                # (variant obligation), so the receiver cannot spin on a closed pipe (contracts of C08)
-               f"io::{GB}:Popen2IO.read", "io::execnet.gateway_socket:SocketIO.read", f"io::{GB}:Message.from_io"]
+               f"io::{GB}:Popen2IO.read", "io::execnet.gateway_socket:SocketIO.read", f"io::{GB}:Message.from_io",
+               # the shutdown ladder escalates exactly when waitall() answers False: "True only when no accepted task is unfinished", also on a pool that has been idle before (contracts of C09)
+               f"pool::{GB}:WorkerPool.waitall", f"pool::{GB}:WorkerPool._perform_spawn", f"pool::{GB}:WorkerPool.__init__"]
     heavy = {f"{GB}:BaseGateway._thread_receiver": 8, f"{GB}:ChannelFactory._finished_receiving": 4, f"{GB}:ChannelFactory._local_close": 3}
-    extra_worlds = {"term": term_world, "io": lambda w: __import__("contracts.io", fromlist=["declare"]).declare(w)}
+    extra_worlds = {"term": term_world, "io": lambda w: __import__("contracts.io", fromlist=["declare"]).declare(w),
+                    "pool": lambda w: __import__("contracts.pool", fromlist=["declare"]).declare(w)}
     assumptions = [
         "ghost clock: WorkerPool.waitall(t) with a numeric t advances it by at most t and returns True only when no accepted task is unfinished (C09); non-blocking statements cost epsilon, which is not counted",
         "user tasks in the execution pool are havoc: they may never finish and may swallow KeyboardInterrupt (waitall may return False both times)",
